@@ -8,7 +8,7 @@
 A lost anchor yields the value under which the dependent obligation of Props/C04.lean fails.
 """
 import ast
-from . import parse, src, find_class, find_func, lean_bool, lean_str
+from . import parse, parse_text, src, find_class, find_func, lean_bool, lean_str
 
 USAGE = "einx/_src/tracer/compiler/python/usage.py"
 INIT = "einx/_src/tracer/compiler/python/__init__.py"
@@ -106,7 +106,7 @@ def define_facts(lost):
 def attr_inline_facts(lost):
     """Are GetAttr and Builtin applications defined with force_inline=True in `_eval_app`?"""
     src_text = src(INIT)
-    tree = ast.parse(src_text)
+    tree = parse_text(src_text, INIT)
     found = {"GetAttr": None, "Builtin": None}
     for n in ast.walk(tree):
         if isinstance(n, ast.If):
